@@ -18,6 +18,7 @@ EXPLANATION = (
     'Also decided: close() really closes the socket; tracked resources are per connection. '
     "Also decided (round 7): Calls on user objects (a stream entry's iterator) before the disconnect hook count as code that may raise; current_context.client is this request's connection before any user code of the request runs (resources are filed under it). "
     'Also decided (round 9): The worker-loop obligations (slot cleared before hand-back, event protocol, handed back only while alive) are shared from C05/C18. '
+    'Also decided (round 10): The clean-up loop of SocketConnection.close iterates a snapshot of the tracked resources (a resource may untrack itself while being closed). '
     "Not decided: counts observed at run time, byte offsets."
 )
 
@@ -302,6 +303,15 @@ def run(ctx, R, tier):
             ok = bool(sup_inside) or bool(try_inside)
             why = "the suppression of close() errors is not per resource: the first resource whose close() raises ends the loop and the remaining ones are never closed"
     R.check(ok, "C13-R5", "close|per-resource-suppression", "each tracked resource is closed under its own suppression", c.loc(), why)
+    # the loop runs user code (resource.close()) that may untrack the resource - i.e. edit the very set that is iterated: it iterates a snapshot of the set
+    # (an exception from the iteration itself is outside every suppression: the rest of the resources would stay open, and on the multiplex server the
+    # exception leaves the event loop)
+    if loops:
+        it_ = loops[0].iter
+        snap = isinstance(it_, ast.Call) and isinstance(it_.func, ast.Name) and it_.func.id in ("list", "tuple", "sorted", "frozenset", "set")
+        R.check(snap, "C13-R5", "close|iterates-a-snapshot", "the clean-up loop iterates a snapshot of tracked_resources", c.loc(loops[0]),
+                "`for ... in %s` iterates the live set while resource.close() runs: a resource that untracks itself in close() makes the iteration raise RuntimeError - "
+                "the remaining resources are never closed and, on the multiplex server, the daemon's loop ends" % unparse(it_))
     clears = [n for cc, _ in ctx.cg.calls_of(c) if unparse(cc.func) == "self.tracked_resources.clear" for n in ctx.node_of(c, cc)]
     ok = bool(clears) and bool(loops)
     if ok:
